@@ -74,6 +74,8 @@ def arg_src(a):
         return a[1]
     if a[0] == "c":
         return repr(a[1])
+    if a[0] == "g":  # a named constant object (same object on the tawazi side and in the reference): identity-sensitive, uncopyable
+        return a[1]
     raise AssertionError(a)
 
 
@@ -176,6 +178,16 @@ def make_fns(spec):
     }
 
 
+def named_constants():
+    from .sym import Opaque
+
+    global _NAMED
+    if _NAMED is None:
+        _NAMED = {"OPQ_A": Opaque("named", "A"), "OPQ_B": Opaque("named", "B")}
+    return _NAMED
+
+
+_NAMED = None
 XN_DEFAULTS = dict(priority=0, is_sequential=False, setup=False, debug=False, tag=None, unpack_to=None)
 DECL_FORMS = Counter()
 
@@ -242,6 +254,7 @@ def build_tawazi(spec, plain=None, dag_kwargs=None, extra_env=None, wrap_site=No
             kw["tag"] = tuple(t) if isinstance(t, list) else t
         xns[name] = declare_xn(plain[name], kw, name, salt=spec.get("salt", spec.get("name", "")) + str(len(spec["nodes"])))
     env = {"c%d" % i: xns[nd["fn"]] for i, nd in enumerate(spec["nodes"])}
+    env.update(named_constants())
     if extra_env:
         env.update(extra_env)
     for i, w in (wrap_site or {}).items():
@@ -271,7 +284,7 @@ def run_reference(spec, args, plain, enabled=None, env_values=None, ref_faults=(
     Returns ("ok", RefInfo) or ("exc", exception).
     """
     info = RefInfo()
-    env = {}
+    env = dict(named_constants())
     env_values = env_values or {}
 
     def mk(i, nd):
